@@ -181,7 +181,7 @@ def rand_custom(n, r, f=np.random.randn):
 
     ps = np.cumsum(np.concatenate(([1], n * r[0:d] * r[1:d+1])))
     ps = ps.astype(int)
-    cores = np.asanyarray(f(ps[d] - 1), dtype=float)
+    cores = np.array(f(ps[d] - 1), dtype=float)
 
     Y = []
     for i in range(d):
